@@ -75,12 +75,25 @@ CLAIMED.update({
          "For every training label vector and EVERY raw assignment the mapped mode index is < K, the relabelled assignment is a present label and the mode at that index was built from exactly the training particles of that label (identity when the label is present); for every cluster_every >= 1, every beta schedule and every resume point no predict precedes the first fit; cap K <= n_max_clusters given C15's bound; a constructed mode object has inverse and Cholesky factor. The old raw-index lookup and the old cadence are kept as documented counter-examples of the two repaired defects.",
          "DESIGN.md §6 C14"),
  "C17": ("Lean 4 invariant proof by induction over op sequences on a reference-level (heap + ghost sets) model of StateManager + exact state-machine differential on random op sequences and on real sampler iterations with scribbling",
-         "Inv (every internally reachable array is disjoint from every array ever returned to the caller, except arrays stored on request with copy=False / update_from_dict) holds after every op sequence of the full alphabet; hence any observation is independent of scribbling on returned arrays (C17_full: traces with and without scribbles coincide); a commit appends exactly one entry per recorded non-None key and nothing else; old history is a payload-prefix of new history for every op but import. Real StateManager and the model run the same random op sequences (incl. malformed ops) and must print identical digests of all observable reads after every op.",
+         "Inv (every internally reachable array is disjoint from every array ever returned to the caller, except arrays stored on request with copy=False) holds after every op sequence of the full alphabet; hence any observation is independent of scribbling on returned arrays (C17_full: traces with and without scribbles coincide); a commit appends exactly one entry per recorded non-None key and nothing else; old history is a payload-prefix of new history for every op but import. Real StateManager and the model run the same random op sequences (incl. malformed ops) and must print identical digests of all observable reads after every op.",
          "DESIGN.md §6 C17"),
  "C18": ("Lean 4 proof about the validation rule table, constructor order table and clusterer wiring regenerated from source (AST translator G2), with a Python-semantics interpreter over a typed value universe + exact correspondence on thousands of generated configurations and a covering array checked in Lean and executed",
          "SamplerConfig accepts iff the documented constraints hold (and types are sane): every violation — alone or combined — is rejected, nothing valid is rejected; rejection happens in the constructors before any likelihood call (decided on the regenerated call table); wiring of the clusterer parameters is sound. The pairwise / 3-wise covering arrays the harness executes are verified in Lean by decide. 'Every valid combination runs to completion' is execution only (partial): all covering rows must finish and meet the run postconditions; the residual degenerate-cluster crash of tiny populations is the recorded known finding F24.",
          "DESIGN.md §6 C18"),
 })
+# added by the clause-audit round (see clauses/<id>.md for the clause -> theorem -> suite -> status matrix of each property)
+APPEND = {
+ "C03": " Clause round: the quadratic forms the runners compute are proved to be the model's scalars (delta >= 0 from Sigma = L L^T, CN exponent = noise norm), every per-mode array is indexed by the walker's own assignment (decided on a regenerated index table), a step keeps the state inside the cube, mixed hard/periodic/reflective coordinates, sigma in [0, 0.99] after every adaptation; the ensemble step (gather by assignment, per-cluster adaptation) is inside the model.",
+ "C04": " Clause round: a rounded-arithmetic instance (every operation followed by an arbitrary rounding with relative error u and absolute error eta below Omega) of the SAME model term proves that exp is only called on arguments <= 0, log only on [1/2, 3], and all outputs are bounded (hence finite) for |logl|, |z| up to 1e6 — under the standard rounding model of IEEE + libm, which is an assumption.",
+ "C05": " Clause round: in ESS mode the schedule clauses are proved on the concrete pipeline model for every tape (beta_0 = 0, monotone, in [0,1], advanced => recorded pool ESS >= target; beta = 0 while pool <= target), tightness of the ESS-limited temperature, generated tolerances; direct-call suites reach the bisection arms that run() provably never executes.",
+ "C06": " Clause round: counts and means for EVERY sum of the effective weights (bias bound n|sum - 1|, the tolerance band the routine accepts), unbiasedness in the renormalising branch, the n-draw multinomial expectation over the product measure, numpy's pairwise np.sum inside the model (bit-exact), Resampler.run and posterior(resample=True) as model functions with length/range/monotonicity theorems.",
+ "C08": " Clause round: StateManager.save_state / load_state / from_dict are translated (second G7 program), proved crash-safe for every final name (temp name = name + '.temp', injective), restored exactly / merged as documented, and exercised by round-trip and crash-injection suites on the real functions.",
+ "C11": " Clause round: the replacement step, the no -inf-accepted rule of the MCMC step and the warm-up evidence are proved on the executable pipeline model (any number of iterations), the first recorded evidence is exactly unbiased for the supported prior mass over i.i.d. draws, and whole real runs with -inf regions are replayed through warm-up and annealing.",
+ "C12": " Clause round: compute_posterior is modelled whole (C20 trimming + C06 systematic resampling): for every non-empty history, every option combination, every ess_trim and bins it never raises, rows stay aligned, weights are normalised / exactly uniform; the guard's ESS is the ESS of the returned untrimmed weights; the lattice covers every documented blob form.",
+ "C14": " Clause round: argmin inside the model (index < K without assumption), training labels and active assignments come from the same fit generation in every reachable state, positive dof from C19's range and the generated fallback, cap from C15's theorem and the modelled wiring, positive definiteness from the LAPACK Cholesky contract checked on the real constructor.",
+ "C16": " Clause round: preimage completeness, the preimage sum is the density of the law of fold(x + xi) (Lebesgue lintegral push-forward), kernel reversibility for even increments, the whole-vector statement for mixed coordinates (hypothesis sharp: F21), and a rounded-arithmetic instance proving idempotence modulo the periodic end points 0 ~ 1 for any monotone idempotent rounding.",
+ "C17": " After the repair of update_from_dict/from_dict (copies), import is no longer an aliasing opt-in: C17_import_never_aliases; re-importing an exported dictionary and scribbling on it afterwards is covered by C17_full.",
+}
 NOT_YET = {}
 props = [json.loads(l) for l in open(os.path.join(HERE, "properties.jsonl"))]
 checks, na = [], []
@@ -88,6 +101,7 @@ for p in props:
     i = p["id"]
     if i in CLAIMED:
         tech, text, ref = CLAIMED[i]
+        text = text + APPEND.get(i, "")
         checks.append({
             "property_id": i,
             "quick_cmd": f"./check {i} --tier quick",
